@@ -32,7 +32,7 @@ ASSUMPTIONS = [
     "Excl: names that collide with the daemon's readonly variables (silently skipped by _generate_env_str by design) and empty lists are not in the alphabet",
     "Excl: values longer than 3 characters, lists longer than 2, characters outside the 12-character alphabet",
     "reading back happens before any phase function / environment save-reload runs (that filtering is C34's subject)",
-    "an environment whose transfer raises, is not acknowledged, hangs for 120 s, or leaves the channel unable to answer 'alive' counts as a violation for the minimal sub-environment that reproduces it on a fresh daemon",
+    "an environment whose transfer raises, is not acknowledged, hangs (120 s, re-checked once with 480 s on a fresh daemon), or leaves the channel unable to answer 'alive' counts as a violation for the minimal sub-environment that reproduces it on a fresh daemon",
     "stdout/stderr of the daemon are pointed at /dev/null (bash diagnostics of broken transfers would flood the log); they are not part of the protocol channel",
 ]
 BOUNDS = {
@@ -271,7 +271,7 @@ def _parse_probe(data, names):
     return res
 
 
-def run_env(ctx, transport, vars_):
+def run_env(ctx, transport, vars_, timeout=None):
     """Send one environment to the real daemon and read it back.
     Returns (env_failure or None, {var index: message}, outcome tag)."""
     ebp = ctx.daemon()
@@ -292,9 +292,10 @@ def run_env(ctx, transport, vars_):
         f.write(_probe_text([v[0] for v in vars_], out))
 
     failure = None
+    timeout = timeout or TIMEOUT
     ctx.defer_kill(True)
     old = signal.signal(signal.SIGALRM, _alarm)
-    signal.setitimer(signal.ITIMER_REAL, TIMEOUT)
+    signal.setitimer(signal.ITIMER_REAL, timeout)
     try:
         try:
             if transport in ("inline", "file"):
@@ -327,7 +328,7 @@ def run_env(ctx, transport, vars_):
             signal.setitimer(signal.ITIMER_REAL, 0)
             signal.signal(signal.SIGALRM, old)
     except _Timeout:
-        failure = (f"no answer from the daemon within {TIMEOUT}s (channel stuck)",)
+        failure = (f"no answer from the daemon within {timeout}s (channel stuck)",)
     except Exception as e:
         failure = f"{type(e).__name__}: {str(e).strip()[:160]}"
     ctx.defer_kill(False)
@@ -387,6 +388,12 @@ def check_group(ctx, transport, vars_, classes, stats):
     """-> list of minimal failing cases inside this group"""
     failure, per, tag = run_env(ctx, transport, vars_)
     stats["envs"] += 1
+    if failure is not None and failure.startswith("no answer from the daemon within"):
+        # a starved machine can exceed the time limit: only a hang that shows again on a fresh daemon with four times
+        # the allowance is taken as a stuck channel
+        failure, per, tag = run_env(ctx, transport, vars_, timeout=4 * TIMEOUT)
+        stats["envs"] += 1
+        stats["timeouts_retried"] += 1
     if failure is None and not per:
         for v in vars_:
             k = f"{transport}:{branch_of(v)}:ok"
@@ -434,7 +441,7 @@ def work(task):
     tier, transport, kind, parity, lo, hi = task
     u = universe(tier)
     classes = {}
-    stats = {"envs": 0, "combination": 0, "transient": 0}
+    stats = {"envs": 0, "combination": 0, "transient": 0, "timeouts_retried": 0}
     viol = []
     ctx = Ctx()
     try:
@@ -454,7 +461,7 @@ def work(task):
         "viol": viol,
         "keep_all_viol": True,
         "samples": [{"transport": transport, "var": vars_[0]}],
-        "counters": {"environments_sent": stats["envs"], "daemon_spawns": spawns, "daemon_recoveries": recovered, "combination_only_cases": stats["combination"], "transient_group_failures": stats["transient"]},
+        "counters": {"environments_sent": stats["envs"], "daemon_spawns": spawns, "daemon_recoveries": recovered, "combination_only_cases": stats["combination"], "transient_group_failures": stats["transient"], "timeouts_retried": stats["timeouts_retried"]},
     }
 
 
@@ -463,6 +470,8 @@ def replay(case):
     try:
         vars_ = [tuple(v) for v in case["vars"]]
         failure, per, tag = run_env(ctx, case["transport"], vars_)
+        if failure is not None and failure.startswith("no answer from the daemon within"):
+            failure, per, tag = run_env(ctx, case["transport"], vars_, timeout=4 * TIMEOUT)
     finally:
         ctx.close()
     msgs = [per[i] for i in sorted(per)]
